@@ -412,6 +412,14 @@ class Engine:
                     v = view(self, st, recv)
                     if v is not None:
                         return v
+            if attr == 'value' and cls and not st.spec:
+                # `value` is an attribute of leaves only: reading it from an interior node raises AttributeError
+                c_, lf_, bn_ = classes.get(cls), classes.get('Leaf'), classes.get('BaseNode')
+                if c_ is not None and lf_ is not None and not issubclass(c_, lf_):
+                    if issubclass(lf_, c_):
+                        st.may_raise(z3.Not(self.is_leaf(recv.t)), 'AttributeError', 'node.value')
+                    elif bn_ is not None and issubclass(c_, bn_):
+                        st.may_raise(z3.BoolVal(True), 'AttributeError', 'node.value')
             if attr == 'children':
                 hc = classes.has_children(cls) if cls else 'maybe'
                 if hc == 'no':
